@@ -10,6 +10,7 @@ from ..enum import has_bytes
 from ..introspect import callbacks_of, clear_client_partial_packet
 
 NSS = ['/', '/a']
+LATE = '/late'          # a namespace the client never connects to
 IDS = [None, 0, 1, 7]
 RETS = [None, 5, 'txt', [1, 2], {'a': 1}, (1, 'two'), (), b'byt',
         {'n': [b'x']}, (b'1', 2), 0, '', False]
@@ -88,8 +89,9 @@ class Model:
         w.take_outbox()
         w.take_log()
         w.emitted = {ns: 0 for ns in NSS}
-        w.out = {ns: {} for ns in NSS}        # id -> callback number
-        w.used = {ns: set() for ns in NSS}
+        w.out = {ns: {} for ns in NSS + [LATE]}   # id -> callback number
+        w.used = {ns: set() for ns in NSS + [LATE]}
+        w.refused_emits = 0
         w.fired = {}
         w.ncb = 0
         return w
@@ -116,6 +118,13 @@ class Model:
                 ops.append(('call', ns, 'silence', 0))
             for i, id in enumerate(self._ids(w)):
                 ops.append(('sack', ns, id, i % len(self.ack_args)))
+        # an emit with callback on a namespace that is not connected is
+        # refused (BadNamespaceError) and must leave nothing behind; ACKs
+        # naming that namespace are unknown ACKs
+        if w.refused_emits < 1:
+            ops.append(('emitcb-unconnected',))
+        for i, id in enumerate(self._ids(w)[:3]):
+            ops.append(('sack', LATE, id, i % len(self.ack_args)))
         return ops
 
     def _bad(self, w, key, msg):
@@ -142,7 +151,7 @@ class Model:
                       f'on {ns} ({sorted(w.out[ns])})')
         return id
 
-    NOOP_KEY = 'C09/ack-side-effect'
+    NOOP_KEY = 'C09/ignored-operation-side-effect'
 
     def future(self, w):
         """What the next emit-with-callback on each namespace looks like
@@ -160,7 +169,10 @@ class Model:
             for i in ids:
                 if isinstance(i, int):
                     w.deliver_packet(3, ns, i, ['fz'])
+        for i in (1, 2, 3):
+            w.deliver_packet(3, LATE, i, ['fl'])
         obs.append(tuple(fired))
+        obs.append(tuple(sorted((k, tuple(v)) for k, v in w.fired.items())))
         w.task_errors.clear()
         return tuple(obs)
 
@@ -180,6 +192,17 @@ class Model:
             id = self._check_emit_frame(w, op, ns, ['q', {'n': k}])
             if id is not None:
                 w.out[ns][id] = k
+        elif kind == 'emitcb-unconnected':
+            w.ncb += 1
+            k = w.ncb
+            w.refused_emits += 1
+            r = w.api('emit', 'q', {'n': k}, namespace=LATE,
+                      callback=self._callback(w, k))
+            frames = [f for f in w.take_outbox() if f[0] != 'eio']
+            if r[:2] != ('exc', 'BadNamespaceError') or frames:
+                self._bad(w, 'bad-namespace', f'{op}: emit on {LATE} gave '
+                          f'{r!r} and sent {frames!r}')
+            w.expect_noop = True
         elif kind == 'call':
             _, ns, answer, ai = op
             args = self.ack_args[ai]
@@ -287,7 +310,7 @@ class Model:
                        tuple(sorted(repr(k) for k in
                                     callbacks_of(c).get(ns, {}))))
                       for ns in NSS),
-                c.connected, tuple(sorted(c.namespaces)))
+                c.connected, tuple(sorted(c.namespaces)), w.refused_emits)
 
     # -- probes: every server event -----------------------------------------
     def probe(self, w):
